@@ -30,11 +30,12 @@ pub struct Case {
     ctx: usize,
     name: String,
     loc: usize,
+    variant: usize,
 }
 
 impl CaseRepr for Case {
     fn repr(&self) -> Value {
-        json!({"context": CONTEXTS[self.ctx], "location": LOCATIONS[self.loc].0, "entry_name": format!("PREFIX{}", self.name), "typed": typed_line(self.ctx, self.loc).replace(PREFIX, "PREFIX") + "<TAB><Enter>"})
+        json!({"context": CONTEXTS[self.ctx], "also_on_the_line": VARIANTS[self.variant], "location": LOCATIONS[self.loc].0, "entry_name": format!("PREFIX{}", self.name), "typed": typed_line(self.ctx, self.loc).replace(PREFIX, "PREFIX") + "<TAB><Enter>"})
     }
 }
 
@@ -61,8 +62,17 @@ fn name_class(name: &str) -> String {
     cs.join("")
 }
 
+/// What else is on the line: nothing, an argument in front of the completed word (its end must not confuse the word-start
+/// computation), or one more character of the name typed by the user before TAB (escaped as a user would).
+pub const VARIANTS: [&str; 6] = ["plain", "after-argument-ending-in-escaped-backslash", "after-single-quoted-argument", "after-double-quoted-argument", "after-argument-with-escaped-blank", "one-more-character-typed"];
+const BEFORE: [(&str, &str); 5] = [("", ""), ("x\\\\ ", "x\\"), ("'q' ", "q"), ("\"d q\" ", "d q"), ("a\\ b ", "a b")];
+
 /// ok / deviation kind + what was observed
 pub fn verdict(ctx: usize, name: &str, workdir: &str, loc: usize) -> (String, Value) {
+    verdict_variant(ctx, name, workdir, loc, 0)
+}
+
+pub fn verdict_variant(ctx: usize, name: &str, workdir: &str, loc: usize, variant: usize) -> (String, Value) {
     let full = format!("{}{}", PREFIX, name);
     // what the program must receive: the entry's path as typed, with `~` / the variable replaced by the directory
     let (dir, expect_prefix) = match LOCATIONS[loc].0 {
@@ -86,7 +96,38 @@ pub fn verdict(ctx: usize, name: &str, workdir: &str, loc: usize) -> (String, Va
     if !made {
         return ("machinery".into(), json!(format!("cannot create {:?}", path)));
     }
-    let typed = typed_line(ctx, loc);
+    let mut typed = typed_line(ctx, loc);
+    let mut prev_arg: Option<&str> = None;
+    if (1..=4).contains(&variant) {
+        // `cmd ARG word`: insert the argument after the command name
+        let (text, value) = BEFORE[variant];
+        let cut = typed.find(' ').unwrap() + 1;
+        typed = format!("{}{}{}", &typed[..cut], text, &typed[cut..]);
+        prev_arg = Some(value);
+        if for_dir {
+            let _ = if for_dir { std::fs::remove_dir_all(&path) } else { std::fs::remove_file(&path) };
+            return ("skipped".into(), Value::Null);
+        }
+    }
+    if variant == 5 {
+        // the user types the first character of the name too
+        let c = match name.chars().next() {
+            Some(c) => c,
+            None => return ("skipped".into(), Value::Null),
+        };
+        let quoted = CONTEXTS[ctx].ends_with("quote");
+        let ok = if CONTEXTS[ctx].ends_with("single-quote") { c != '\'' } else if CONTEXTS[ctx].ends_with("double-quote") { !"\"$`\\!".contains(c) } else { true };
+        if !ok {
+            let _ = if for_dir { std::fs::remove_dir_all(&path) } else { std::fs::remove_file(&path) };
+            return ("skipped".into(), Value::Null);
+        }
+        if quoted || c.is_alphanumeric() {
+            typed.push(c);
+        } else {
+            typed.push('\\');
+            typed.push(c);
+        }
+    }
     let res = explore::guarded(|| {
         let start = vh::escaped_word_start(&typed);
         let word = &typed[start..];
@@ -103,7 +144,7 @@ pub fn verdict(ctx: usize, name: &str, workdir: &str, loc: usize) -> (String, Va
         }
         // a directory completed inside an open quote keeps the quote open (the user may go on with the next path
         // component): the user closes it with the quote character the completed word now starts with
-        if CONTEXTS[ctx].starts_with("cd-") && comps.len() == 1 && !vh::parse_line(&line).is_complete {
+        if for_dir && (CONTEXTS[ctx].starts_with("cd-") || variant == 5) && comps.len() == 1 && !vh::parse_line(&line).is_complete {
             if let Some(q) = comps[0].0.chars().next().filter(|c| *c == '\'' || *c == '"') {
                 line.push(q);
             }
@@ -125,7 +166,14 @@ pub fn verdict(ctx: usize, name: &str, workdir: &str, loc: usize) -> (String, Va
             if let Ok(p) = &segs[0] {
                 observed["plan"] = p.to_json();
                 if p.commands.len() == 1 && !p.background && p.envs.is_empty() && p.commands[0].redirects_to.is_empty() && p.commands[0].redirect_from.is_none() {
-                    let argv = p.argv(0);
+                    let mut argv = p.argv(0);
+                    if let Some(v) = prev_arg {
+                        if argv.len() == 3 && argv[1] == v {
+                            argv.remove(1);
+                        } else {
+                            argv.clear();
+                        }
+                    }
                     if argv.len() == 2 && argv[0] == cmdname && (argv[1] == full || (for_dir && argv[1] == format!("{}/", full))) {
                         good = true;
                     }
@@ -172,7 +220,7 @@ fn run_case_in(c: &Case, acc: &mut Acc, scratch: &str) {
     acc.eval();
     acc.nontrivial();
     let d = worker_dir(scratch);
-    let (kind, observed) = verdict(c.ctx, &c.name, &d, c.loc);
+    let (kind, observed) = verdict_variant(c.ctx, &c.name, &d, c.loc, c.variant);
     if kind == "skipped" {
         return;
     }
@@ -183,7 +231,10 @@ fn run_case_in(c: &Case, acc: &mut Acc, scratch: &str) {
     } else {
         acc.outcome(&format!("deviation:inprocess:{}", kind));
         acc.state(&format!("{}|{}", CONTEXTS[c.ctx], kind));
-        let locs = if c.loc == 0 { String::new() } else { format!(":in-{}", LOCATIONS[c.loc].0) };
+        let mut locs = if c.loc == 0 { String::new() } else { format!(":in-{}", LOCATIONS[c.loc].0) };
+        if c.variant != 0 {
+            locs.push_str(&format!(":{}", VARIANTS[c.variant]));
+        }
         acc.violation(&format!("{}:{}{}:[{}]", kind, CONTEXTS[c.ctx], locs, name_class(&c.name)), c.repr(), json!({"argv": [format!("PREFIX{}", c.name)]}), observed);
     }
 }
@@ -279,15 +330,18 @@ pub fn run(ctx: &Ctx) -> Value {
     let mut mismatches: Vec<Value> = Vec::new();
     if let Some(vfile) = ctx.args.get(1) {
         if let Ok(text) = std::fs::read_to_string(vfile) {
-            let list: Vec<(String, String, String, usize)> = serde_json::from_str(&text).unwrap_or_default();
+            let list: Vec<(String, String, String, usize, usize)> = serde_json::from_str(&text).unwrap_or_default();
             let d = worker_dir(&scratch);
-            for (c, name, pty_kind, loc) in list {
+            for (c, name, pty_kind, loc, variant) in list {
                 let ci = match c.as_str() { "U" => 0, "S" => 1, "D" => 2, "CS" => 4, "CD" => 5, _ => 3 };
-                let (kind, observed) = verdict(ci, &name, &d, loc);
+                let (kind, observed) = verdict_variant(ci, &name, &d, loc, variant);
+                if kind == "skipped" {
+                    continue;
+                }
                 conf_checked += 1;
                 if (kind == "ok") != (pty_kind == "ok") {
                     if mismatches.len() < 20 {
-                        mismatches.push(json!({"context": CONTEXTS[ci], "location": LOCATIONS[loc].0, "name": name, "real_editor": pty_kind, "in_process": kind, "observed": observed}));
+                        mismatches.push(json!({"context": CONTEXTS[ci], "location": LOCATIONS[loc].0, "also_on_the_line": VARIANTS[variant], "name": name, "real_editor": pty_kind, "in_process": kind, "observed": observed}));
                     } else {
                         mismatches.push(Value::Null);
                     }
@@ -318,7 +372,10 @@ pub fn run(ctx: &Ctx) -> Value {
             Box::new(explore::strings_of_len(&ALPHA, len).flat_map(move |name| {
                 (0..CONTEXTS.len()).flat_map(move |ctx| {
                     let name = name.clone();
-                    (0..nloc).map(move |loc| Case { ctx, name: name.clone(), loc })
+                    let name2 = name.clone();
+                    // every location with nothing else on the line; in the working directory also the line variants
+                    (0..nloc).map(move |loc| Case { ctx, name: name.clone(), loc, variant: 0 })
+                        .chain((1..(if nloc > 1 { VARIANTS.len() } else { 1 })).map(move |variant| Case { ctx, name: name2.clone(), loc: 0, variant }))
                 })
             }))
         };
